@@ -253,16 +253,16 @@ PROPS = {
                            'scale_up_cool_down_timeout is an option key (partial: finding T4, C16_keys_full_fails). Tie: the validate stream compares, on a bounded-exhaustive grid plus random, the number of failing checks of the translation with the real '
                            'ValidateNodeGroup; decode runs every key as YAML and JSON through the real decoder; startup runs the built program (cmd/main.go, no build tag) on generated files of 1-4 node groups (duplicate names, invalid entries in any position) and compares "got past setupNodeGroups" with "every entry passes the translated validator"; an independent monitor re-checks Safe on every accepted configuration.',
                 level_note=LEVEL_NOTE + ' YAML parsing itself (yaml.NewYAMLOrJSONDecoder) and time.ParseDuration are trusted library code; durations reach the model as the values the accessors returned.'),
-    'C17': dict(level='proof', module='EscProofs.P.C17',
+    'C17': dict(level='proof', module='EscProofs.P.C17Scan',
                 # controller-level histories too: what the provider is asked, and from which description of the group (refresh failures: 5 s of real sleep each)
                 streams=dict(quick=[('awsops', ['-n', 3000]), ('fleetops', ['-n', 96]), ('hist', ['-n', 250, '-scans', 10, '-focus', 'up']), ('hist', ['-n', 16, '-scans', 6, '-focus', 'up', '-slow']), ('hist', ['-n', 250, '-scans', 10, '-focus', 'multi'])],
                              thorough=[('awsops', ['-n', 200000]), ('fleetops', ['-n', 1600]), ('hist', ['-n', 10000, '-scans', 12, '-focus', 'multi']), ('hist', ['-n', 10000, '-scans', 12, '-focus', 'up']), ('hist', ['-n', 160, '-scans', 6, '-focus', 'up', '-slow'])],
                              search=[('awsops', ['-n', 20000]), ('fleetops', ['-n', 300]), ('hist', ['-n', 1500, '-scans', 12, '-focus', 'up']), ('hist', ['-n', 32, '-scans', 6, '-focus', 'up', '-slow']), ('hist', ['-n', 1500, '-scans', 12, '-focus', 'multi'])]),
                 aspects=['journal', 'outcome', 'hist:resize'], monitors=['C17'],
                 theorems=['Esc.P.C17_increase', 'Esc.P.C17_reject', 'Esc.P.C17_never_lowers', 'Esc.P.C17_attach_partition', 'Esc.P.C17_batch_limits',
-                          'Esc.P.mkFleetReq_ok'],
+                          'Esc.P.mkFleetReq_ok', 'Esc.P.C17_scan_never_lowers'],
                 technique='Lean 4 theorem over the model of aws.NodeGroup.IncreaseSize (all deltas, bounds, fleet sizes, environments; batch constants regenerated from source) + differential correspondence on full AWS call arguments + monitor',
-                level_text='C17_increase: rejected requests make no call; otherwise exactly SetDesiredCapacity(current+d), or in fleet mode at most one CreateFleet for exactly d (min target d, instant, '
+                level_text='C17_scan_never_lowers: every SetDesiredCapacity in the journal of ScaleUp asks for strictly more than the desired size the provider holds for the group at that moment (the implementation-side oracle loweringRequests is its negation, judged against the cloud's own description). C17_increase: rejected requests make no call; otherwise exactly SetDesiredCapacity(current+d), or in fleet mode at most one CreateFleet for exactly d (min target d, instant, '
                            'configured template, default on-demand, overrides from the configured types) and never a SetDesiredCapacity; C17_attach_partition: attach calls carry consecutive batches of the acquired ids, '
                            '<= batchSize each, only the last shorter; C17_batch_limits ties batchSize<=20 / terminateBatchSize<=1000 to the constants extracted from aws.go; C17_never_lowers. '
                            'Tie: awsops/fleetops streams run the real provider over the simulated AWS; full call arguments compared; predicates monitored on observed journals.',
